@@ -6,6 +6,7 @@
 (*   Put(opt)   the caller fills the map  tag -> nil | byte slice          *)
 (*              (the argument of header.Write)                             *)
 (*   Write      header.Write: file := Build(scaler, map, physical order)   *)
+(*   Refuse     header.Write returns an error (table count not accepted)   *)
 (*   Read       header.Read + ReadTableBytes for every directory entry     *)
 (*                                                                         *)
 (* TLC checks exhaustively, for every map over the chosen tags (absent /   *)
@@ -26,7 +27,9 @@ CONSTANTS UseTags,   \* subset of 1..9: indices into TagList
           HeadLens,  \* lengths of the head table (>= 12: shorter is not a head table)
           UseNil,    \* BOOLEAN: entries with nil data occur
           Scalers,   \* subset of {"ttf", "otto", "true"}
-          Orders     \* subset of {"recommended", "tag", "revtag"}
+          Orders,    \* subset of {"recommended", "tag", "revtag"}
+          Limit      \* most tables a container may have (280 in header/tables.go, scaled down):
+                     \* the law is  Write accepts n  <=>  Read accepts n  <=>  n \in 1..Limit
 
 VARIABLES phase, q, scaler, order, inp, file, toc
 vars == <<phase, q, scaler, order, inp, file, toc>>
@@ -69,18 +72,26 @@ Put == /\ phase = "put" /\ q <= Len(TagSeq)
        /\ q' = q + 1
        /\ UNCHANGED <<phase, scaler, order, file, toc>>
 
-\* domain: at least one table is written (the format has no container without tables)
-Write == /\ phase = "put" /\ q > Len(TagSeq) /\ Present(inp) # {}
+\* what both sides accept: at least one table (the format has no container without tables) and
+\* no more than Limit
+Accepts(n) == n \in 1..Limit
+
+Write == /\ phase = "put" /\ q > Len(TagSeq) /\ Accepts(Cardinality(Present(inp)))
          /\ file' = Build(scaler, inp, PhysOrder(inp, order))
          /\ phase' = "written"
          /\ UNCHANGED <<q, scaler, order, inp, toc>>
 
-Read == /\ phase = "written"
+\* Write returns an error and produces nothing
+Refuse == /\ phase = "put" /\ q > Len(TagSeq) /\ ~Accepts(Cardinality(Present(inp)))
+          /\ phase' = "refused"
+          /\ UNCHANGED <<q, scaler, order, inp, file, toc>>
+
+Read == /\ phase = "written" /\ Accepts(NumTables(file))
         /\ toc' = TablesOf(file)
         /\ phase' = "done"
         /\ UNCHANGED <<q, scaler, order, inp, file>>
 
-Next == Put \/ Write \/ Read
+Next == Put \/ Write \/ Refuse \/ Read
 Spec == Init /\ [][Next]_vars
 
 ---------------------------------------------------------------------------
@@ -103,6 +114,12 @@ InvPadZero      == W => \A i \in 1..NumTables(file) : LET r == RecAt(file, i) IN
                           \A p \in (Int32(r.off) + Int32(r.len) + 1)..(Int32(r.off) + Pad4(Int32(r.len))) : file[p] = 0
 \* reading back returns exactly the tables written, byte for byte (head: modulo checkSumAdjustment)
 InvRoundTrip    == phase = "done" => Masked(toc) = Expected(inp) /\ Cardinality(toc) = NPresent
+
+\* Write and Read agree on the table counts they accept: every written file is read (no deadlock in
+\* "written"), and what Write refuses Read would refuse as well
+InvAgree        == /\ phase \in {"written", "done"} => Accepts(NumTables(file))
+                   /\ phase = "refused" => ~Accepts(Cardinality(Present(inp)))
+                   /\ phase = "written" => ENABLED Read
 
 Emit == phase = "done" => PrintT(<<"CASE", ToJson([scaler |-> scaler, tabs |-> inp])>>)
 =============================================================================
